@@ -19,7 +19,7 @@ import (
 
 var c08Keys = []string{"200", "2XX", "404", "4XX", "default"}
 var c08Statuses = []int{200, 201, 204, 301, 304, 307, 308, 400, 404, 500, 99, 600}
-var c08Bodies = []string{"valid", "other-entry-marker", "with-writeOnly", "with-readOnly", "wrong-type", "none"}
+var c08Bodies = []string{"valid", "other-entry-marker", "with-writeOnly", "with-readOnly", "wrong-type", "none", "malformed-json"}
 var c08ContentTypes = []string{"application/json", "application/json; charset=utf-8", "text/plain", ""}
 
 type c08Case struct {
@@ -215,6 +215,9 @@ func init() {
 			if bodyVal != nil {
 				bodyBytes, _ = json.Marshal(bodyVal)
 			}
+			if c.body == "malformed-json" {
+				bodyBytes = []byte(`{"k":"` + sel + `",`)
+			}
 			opts := &openapi3filter.Options{IncludeResponseStatus: c.inclStatus, ExcludeResponseBody: c.exBody, ExcludeWriteOnlyValidations: c.exWO, MultiError: c.me}
 			in := &openapi3filter.ResponseValidationInput{
 				RequestValidationInput: &openapi3filter.RequestValidationInput{Request: req, Route: route, Options: opts},
@@ -238,6 +241,8 @@ func init() {
 				if !wantErr && !c.exBody && c.withContent {
 					if _, ok := ref.SelectContent([]string{"application/json"}, c.ct); !ok {
 						wantErr, why = true, "content-type-undeclared"
+					} else if c.body == "malformed-json" {
+						wantErr, why = true, "body-undecodable"
 					} else if bodyVal == nil {
 						wantErr, why = true, "body-missing" // empty bytes are not JSON
 					} else {
